@@ -375,6 +375,13 @@ def run_shard(arg):
                             for it in its_all:
                                 q, ge = BACKGROUNDS[(res.cases) % len(BACKGROUNDS)]
                                 one(e, word, f, "nm", (x, y), q, ge, it, 7, extra={"sctlr": sctlr}, tag=" v7R DZ=%d" % dz)
+                # on a non-R configuration SCTLR bit 19 is WXN, not DZ: a zero divisor must never trap there
+                e = env(7)
+                base_sctlr = e.base[0][e.index["sctlr"]]
+                for x in vals:
+                    for it in its_all:
+                        q, ge = BACKGROUNDS[(res.cases) % len(BACKGROUNDS)]
+                        one(e, word, f, "nm", (x, 0), q, ge, it, 7, extra={"sctlr": base_sctlr | SCTLR_DZ}, tag=" non-R bit19=1")
     if part == 0:
         res.sample({"row": row.cls, "pattern": row.pat, "instances": ninst, "option_combos": len(combos),
                     "register_patterns": len(pats)})
